@@ -306,7 +306,7 @@ class StandardTextLayout(TextLayout):
                 if text[prev] == sp_o:
                     screen_columns = calc_width(text, idx, prev)
                     line = [(0, prev)]
-                    if idx != prev:
+                    if screen_columns:  # nothing to show when only zero-width characters precede the space
                         line = [(screen_columns, idx, prev), *line]
                     segments.append(line)
                     idx = prev + 1
